@@ -131,6 +131,15 @@ func xxhRecord(args []string) error {
 			ln = r.Intn(*maxLen + 1)
 		}
 		data := randBytes(r, ln)
+		// the first cases are inputs built from the specification so that one accumulator lane is exactly 0 at a
+		// stripe boundary (after the first or the second stripe), followed by a few more bytes
+		crafted := 0
+		if c <= 32 {
+			k := c - 1
+			prefix := randBytes(r, 16*(k/4%2))
+			data = append(ref.ZeroLaneInput(prefix, k%4, byte(17*k)), randBytes(r, []int{0, 1, 5, 16, 21}[k%5])...)
+			crafted = len(prefix) + 16
+		}
 		// two inputs per case through one object: the second Reset finds it with whatever the first input left
 		// buffered; the digest right after Reset (no Write yet) is the digest of the empty input
 		if c%2 == 1 {
@@ -142,7 +151,17 @@ func xxhRecord(args []string) error {
 		pos := 0
 		for pos < len(data) || r.Intn(4) == 0 {
 			k := 0
-			if pos < len(data) {
+			if crafted > 0 && pos < crafted {
+				k = crafted - pos // one Write ends exactly at the stripe boundary where the lane is 0 ...
+				if pos == 0 && c%2 == 0 {
+					k = 16 * (crafted / 32) // (or the prefix stripe first)
+					if k == 0 {
+						k = crafted
+					}
+				}
+			} else if crafted > 0 && pos == crafted && c%3 == 0 {
+				crafted = -1 // ... then, sometimes, an empty Write
+			} else if pos < len(data) {
 				switch r.Intn(3) {
 				case 0:
 					k = r.Intn(len(data) - pos + 1)
